@@ -6,7 +6,7 @@
    Generated/C15StatusUtil.v dumped by running NewStatusFromMsgAndHTTPCode on its whole domain).
    No proofs in this file. *)
 From Verif Require Import Common.Base.
-From Verif Require Import Generated.C15Recv Generated.C15GrpcExp Generated.C15HttpExp Generated.C15StatusUtil Generated.C15Shutdown.
+From Verif Require Import Generated.C15Recv Generated.C15GrpcExp Generated.C15HttpExp Generated.C15StatusUtil Generated.C15Shutdown Generated.C15ServerTimeouts.
 Local Open Scope Z_scope.
 
 (* ------------------------------------------------------------------------------------------
@@ -51,11 +51,16 @@ Definition is_permanent (o : outcome) : bool :=
 Definition status_err (s : gstatus) : option gstatus :=
   if fst s =? codes_OK then None else Some s.
 
-(* receiver/otlpreceiver/internal/errors/errors.go: GetStatusFromError (err <> nil) *)
+(* receiver/otlpreceiver/internal/errors/errors.go: GetStatusFromError (err <> nil).
+   `if !ok || (err != nil && s.Code() == codes.OK)`: an error whose status says OK is treated like an error
+   without a status (since /repo b16584117; before, s.Err() = nil turned it into a success) *)
+Definition default_status (o : outcome) : gstatus :=
+  (if is_permanent o then codes_Internal else codes_Unavailable, None).
+
 Definition get_status_from_error (o : outcome) : option gstatus :=
   match from_error o with
-  | Some s => status_err s
-  | None => status_err (if is_permanent o then codes_Internal else codes_Unavailable, None)
+  | Some s => if fst s =? codes_OK then status_err (default_status o) else status_err s
+  | None => status_err (default_status o)
   end.
 
 (* receiver/otlpreceiver/internal/{logs,metrics,trace,profiles}/otlp.go: Receiver.Export.
@@ -104,13 +109,17 @@ Definition process_error (w : option gstatus) : verdict :=
    HTTP route: receiver
    ------------------------------------------------------------------------------------------ *)
 Inductive ctype := CtPb | CtJson | CtOther.          (* mime type of the request's Content-Type *)
-Inductive cenc := EncGood | EncBadEager | EncBadLazy | EncUnsupported.
+Inductive cenc := EncGood | EncBadEager | EncBadLazy | EncUnsupported | EncTruncated.
 (* Content-Encoding: absent/supported with a body that decompresses
    | supported, the body is not in that format and the decoder notices when it is CREATED
      (config/confighttp/compression.go availableDecoders: gzip.NewReader / zlib.NewReader read the header)
    | supported, the body is not in that format and the failure shows only while the body is READ
      (snappy, lz4, zstd decoders are lazy; gzip/zlib with a valid header and a damaged stream)
-   | not in the server's list *)
+   | not in the server's list
+   | EncTruncated: every byte that arrived is fine but the read ends with io.ErrUnexpectedEOF — a gzip / zlib
+     stream whose trailer (checksum, length) is missing or cut, or fewer bytes than Content-Length announced
+     (the sender was cut off); the prefix that arrived may even decode to n items (r_body = Some n).
+     otlphttp.go readAndCloseBody rejects ANY read error with 400 before anything is decoded *)
 
 Record request := mkReq {
   r_auth : auth; r_enc : cenc; r_post : bool; r_ct : ctype;
@@ -136,13 +145,11 @@ Definition write_error (e : option gstatus) (default_status : Z) : response :=
   | None => write_status_response default_status (NewStatusFromMsgAndHTTPCode default_status, None)
   end.
 
-(* otlphttp.go: errorHandler (used by confighttp's auth interceptor and decompressor): without an
-   OTLP content type the answer is the fixed fallback: 500 with a JSON body of code 13 *)
+(* otlphttp.go: errorHandler (used by confighttp's auth interceptor and decompressor): the status that was
+   asked for with an rpc.Status body, in the request's OTLP encoding, or — since /repo 158674155 — in the
+   JSON encoding when the Content-Type is not an OTLP one (before that fix: a fixed 500 {code: 13}) *)
 Definition error_handler (ct : ctype) (st : Z) : response :=
-  match ct with
-  | CtOther => mkResp 500 None (Some 13)
-  | _ => write_status_response st (NewStatusFromMsgAndHTTPCode st, None)
-  end.
+  write_status_response st (NewStatusFromMsgAndHTTPCode st, None).
 
 (* confighttp.ToServer order: authInterceptor -> (max body) -> httpContentDecompressor (unknown
    Content-Encoding, or a decoder that fails when created: errorHandler 400) -> mux ->
@@ -166,7 +173,7 @@ Definition recv_http (rq : request) (o : outcome) : bool * response :=
       | 415 => (false, mkResp 415 None None)      (* handleUnmatchedContentType: text/plain body *)
       | _ =>
              match r_enc rq, r_body rq with
-             | EncBadLazy, _ => (false, write_error None 400)
+             | EncBadLazy, _ | EncTruncated, _ => (false, write_error None 400)
              | _, None => (false, write_error None 400)
              | _, Some n =>
                  match export n o with
@@ -290,6 +297,59 @@ Definition hop_at_lib (lib_drains : stop_call -> bool)
   end.
 
 Definition hop_at := hop_at_lib documented_lib.
+
+(* ------------------------------------------------------------------------------------------
+   A slow consumer and the HTTP server's timeouts (config/confighttp/confighttp.go ToServer).
+   The receiver's four configured timeouts (nanoseconds, 0 = none) are copied into the http.Server;
+   WHICH configured value lands in which server field is dumped by running ToServer on the current
+   tree (Generated/C15ServerTimeouts.v: 1 read, 2 read_header, 3 write, 4 idle).
+   net/http: ReadTimeout / ReadHeaderTimeout bound the reading of the request only; WriteTimeout is
+   "the maximum duration before timing out writes of the response", counted from the end of the request
+   header read: a handler (= the next consumer) that takes longer than that finishes normally, but its
+   response can no longer be written and the connection is closed — the sender sees the connection die.
+   Validated on the implementation by the kind-11 scenarios (both branches).  gRPC has no such timeouts.
+   ------------------------------------------------------------------------------------------ *)
+Record http_timeouts := mkTO { to_read : Z; to_read_header : Z; to_write : Z; to_idle : Z }.
+
+Definition pick_timeout (cfg : http_timeouts) (src : Z) : Z :=
+  if src =? 1 then to_read cfg else if src =? 2 then to_read_header cfg
+  else if src =? 3 then to_write cfg else if src =? 4 then to_idle cfg else 0.
+
+(* ToServer: the http.Server's fields *)
+Definition to_server (cfg : http_timeouts) : http_timeouts :=
+  mkTO (pick_timeout cfg ToServer_ReadTimeout_src) (pick_timeout cfg ToServer_ReadHeaderTimeout_src)
+       (pick_timeout cfg ToServer_WriteTimeout_src) (pick_timeout cfg ToServer_IdleTimeout_src).
+
+Definition response_deliverable (srv : http_timeouts) (handler_ns : Z) : bool :=
+  (to_write srv <=? 0) || (handler_ns <? to_write srv).
+
+(* a hop whose consumer takes handler_ns to answer *)
+Definition hop_slow (cfg : http_timeouts) (handler_ns : Z) (t : transport) (a : auth) (items : N) (o : outcome)
+    : hop_result :=
+  match t with
+  | Grpc => hop t a items o
+  | _ => if response_deliverable (to_server cfg) handler_ns || negb (h_called (hop t a items o))
+         then hop t a items o
+         else conn_lost t true
+  end.
+
+(* ------------------------------------------------------------------------------------------
+   A history: any finite sequence of sends (any mix of transports, authenticator states, item counts and
+   consumer outcomes) through the same receiver.  The receiver keeps no state between requests: the i-th
+   send is the hop of its own parameters; the sink receives, in order, the indices of the sends that reach
+   the consumer.  (Validated by the kind-12 scenarios: several sends in a row against one receiver whose sink
+   is not reset in between.)
+   ------------------------------------------------------------------------------------------ *)
+Definition send := (transport * auth * N * outcome)%type.
+
+Fixpoint run_history (h : list send) (i : nat) : list nat * list verdict :=
+  match h with
+  | [] => ([], [])
+  | (t, a, n, o) :: r =>
+      let x := hop t a n o in
+      let '(s, v) := run_history r (S i) in
+      ((if h_called x then [i] else []) ++ s, h_verdict x :: v)
+  end.
 
 (* ------------------------------------------------------------------------------------------
    Payload transport: the codec (C08) and the compression (C16) are other properties; here they
